@@ -253,7 +253,12 @@ def run_slice(job: dict) -> dict:
                     warnings.simplefilter("ignore")
                     world = mosaik.World({"T": {"python": "vlab.stubs:SharedModels"}}, skip_greetings=True)
                     try:
-                        world.start("T", sim_id="First", typ=t1)
+                        try:
+                            world.start("T", sim_id="First", typ=t1)
+                        except ValueError as e1:
+                            viol("world_start_rejected_but_consistent", desc=desc, type=t1, shared_model_table=True,
+                                 started_before_as=t1, error=str(e1)[:200])
+                            continue
                         C["shared_model_table_pairs"] += 1
                         try:
                             f2 = world.start("T", sim_id="Second", typ=t2)
@@ -294,8 +299,12 @@ def run_slice(job: dict) -> dict:
                 try:
                     if (k // W // 23) % 2:
                         # a consistent description from the same sim_config entry has been started before
-                        world.start("S", sim_id="W", spec={"type": typ, "entities": ["e0"], "ins": {}, "outs": {},
-                                                           "model_desc": {"attrs": [], "public": True, "params": []}})
+                        try:
+                            world.start("S", sim_id="W", spec={"type": typ, "entities": ["e0"], "ins": {}, "outs": {},
+                                                               "model_desc": {"attrs": [], "public": True, "params": []}})
+                        except ValueError as e1:
+                            viol("world_start_rejected_but_consistent", desc={"attrs": []}, type=typ, error=str(e1)[:200])
+                            continue
                         C["world_start_rejections_after_a_consistent_start"] += 1
                     world.start("S", sim_id="X", spec={"type": typ, "entities": ["e0"], "ins": {}, "outs": {},
                                                        "model_desc": dict(desc, public=True, params=[])})
